@@ -183,7 +183,13 @@ async fn resolve_container_inner<'a, T: ContainerType + ?Sized>(
     fields.add_set(ctx, root)?;
 
     let res = if parallel {
-        futures_util::future::try_join_all(fields.0).await?
+        // Run every field to completion (instead of cancelling the siblings of the
+        // first failing field) so that the errors recorded at nullable positions do not
+        // depend on the order in which resolvers complete.
+        futures_util::future::join_all(fields.0)
+            .await
+            .into_iter()
+            .collect::<ServerResult<Vec<_>>>()?
     } else {
         let mut results = Vec::with_capacity(fields.0.len());
         for field in fields.0 {
